@@ -67,6 +67,9 @@ pub const TES: &[&[&str]] = &[
     &[",chunked"],
     &["chunked , "],
     &["chunked", ""],
+    // a transfer coding without chunked: the statement lets Content-Length (or the close) delimit such a body
+    &["identity"],
+    &["gzip"],
 ];
 pub const N_EXTRA: u8 = 3;
 pub const N_SEG: u8 = 3;
@@ -181,7 +184,7 @@ fn gzip(data: &[u8]) -> Vec<u8> {
 impl Property for C03 {
     type Case = Case;
     const ID: &'static str = "C03";
-    const RULE: &'static str = "cases drawn from (thorough: all of) the product method{8} x status{16} x Content-Length configuration{33} x Transfer-Encoding{14} x \
+    const RULE: &'static str = "cases drawn from (thorough: all of) the product method{8} x status{16} x Content-Length configuration{33} x Transfer-Encoding{16} x \
 Content-Encoding{2} x bytes after the frame{3} x segmentation{3} x payload length{2}; the reference model (RFC 9112 6.3) decides the governing framing and the builder lays the body \
 out for it; outcome (Ok/Err and bytes) compared exactly. non-trivial = two framing signals in conflict, or a bodiless method/status carrying framing or coding headers, or an invalid/disagreeing \
 Content-Length; distinct by case index";
@@ -248,7 +251,7 @@ Content-Length; distinct by case index";
         let (cl_class, cl_vals) = classify_cl(cl_cfg, plen);
 
         let bodiless = method == "HEAD" || status / 100 == 1 || status == 204 || status == 304;
-        let chunked = !te.is_empty();
+        let chunked = te.iter().any(|t| t.to_ascii_lowercase().contains("chunked"));
         let te_gzip = te.iter().any(|t| t.contains("gzip"));
         let ce_gzip = case.ce == 1;
         let coded = te_gzip || ce_gzip;
@@ -303,10 +306,14 @@ Content-Length; distinct by case index";
             }
             wire.extend_from_slice(extra);
         } else if chunked {
+            // chunked wins: whatever a Content-Length next to it says (valid, disagreeing or not a number) plays no part
             accept.push(Expect::Body(payload.clone()));
             if matches!(cl_class, ClClass::Invalid | ClClass::Ambiguous(_)) {
+                ctx.label("bad-content-length-next-to-chunked(overridden)");
+            }
+            if cl_vals.iter().any(|v| v.bytes().any(|b| b < 0x20 || b == 0x7f)) {
+                // (a control byte makes the field line itself invalid: refusing such a head is not a framing decision)
                 accept.push(Expect::SendErr);
-                ctx.label("ambiguous:bad-cl-next-to-chunked");
             }
             // two chunks when possible
             let st = ChunkStyle { hex: 0, zeros: 0, ext: 0 };
